@@ -154,6 +154,7 @@ enum Variant {
     SharedNs,
     AlternatingNs,
     CrossReferences,
+    AnnotatedImports,
 }
 
 fn variant_name(v: Variant) -> &'static str {
@@ -168,6 +169,7 @@ fn variant_name(v: Variant) -> &'static str {
         Variant::SharedNs => "files-share-one-namespace",
         Variant::AlternatingNs => "two-namespaces-alternating-over-the-files",
         Variant::CrossReferences => "cross-file-bases-and-refs",
+        Variant::AnnotatedImports => "annotation-before-and-between-the-imports",
     }
 }
 
@@ -185,6 +187,23 @@ fn build_case(n: usize, edges: u32, v: Variant) -> Case {
             Variant::SharedNs => print_xsd(&file_for_ns(i, n, edges, false, false, true)),
             Variant::AlternatingNs => print_xsd(&file_for_ns_mode(i, n, edges, false, false, 2)),
             Variant::CrossReferences => print_xsd(&file_with_cross_references(i, n, edges)),
+            Variant::AnnotatedImports => {
+                // an <xs:annotation> as the first child of the schema and another one after every import
+                let note = "<xs:annotation><xs:documentation>about the imports</xs:documentation></xs:annotation>";
+                let text = print_xsd(&file_for(i, n, edges, false, false));
+                let mut out = String::new();
+                let mut first = true;
+                for line in text.lines() {
+                    out.push_str(line);
+                    out.push('\n');
+                    if (first && line.trim_start().starts_with("<xs:schema")) || line.trim_start().starts_with("<xs:import") {
+                        out.push_str(note);
+                        out.push('\n');
+                        first = false;
+                    }
+                }
+                out
+            }
             _ => print_xsd(&file_for(i, n, edges, false, false)),
         };
         files.push((format!("f{i}.xsd"), text));
@@ -343,9 +362,9 @@ pub fn check(tier: &str) -> i32 {
         let variants: Vec<Variant> = if n >= 5 {
             vec![Variant::Base, Variant::Malformed]
         } else if n <= 3 || tier == "thorough" {
-            vec![Variant::Base, Variant::Removed, Variant::Changed, Variant::Malformed, Variant::NonSchema, Variant::DupEdges, Variant::WsdlStart, Variant::SharedNs, Variant::AlternatingNs, Variant::CrossReferences]
+            vec![Variant::Base, Variant::Removed, Variant::Changed, Variant::Malformed, Variant::NonSchema, Variant::DupEdges, Variant::WsdlStart, Variant::SharedNs, Variant::AlternatingNs, Variant::CrossReferences, Variant::AnnotatedImports]
         } else {
-            vec![Variant::Base, Variant::Malformed, Variant::Removed, Variant::SharedNs, Variant::AlternatingNs, Variant::CrossReferences]
+            vec![Variant::Base, Variant::Malformed, Variant::Removed, Variant::SharedNs, Variant::AlternatingNs, Variant::CrossReferences, Variant::AnnotatedImports]
         };
         let mut n_states = 0u64;
         for chunk in graphs.chunks(4096) {
@@ -432,7 +451,7 @@ pub fn replay(v: &Violation) -> i32 {
     let n = v.case["n"].as_u64().unwrap_or(1) as usize;
     let edges = v.case["edges"].as_u64().unwrap_or(0) as u32;
     let vname = v.case["variant"].as_str().unwrap_or("as-generated");
-    let variant = [Variant::Base, Variant::Removed, Variant::Changed, Variant::Malformed, Variant::NonSchema, Variant::DupEdges, Variant::WsdlStart, Variant::SharedNs, Variant::AlternatingNs, Variant::CrossReferences]
+    let variant = [Variant::Base, Variant::Removed, Variant::Changed, Variant::Malformed, Variant::NonSchema, Variant::DupEdges, Variant::WsdlStart, Variant::SharedNs, Variant::AlternatingNs, Variant::CrossReferences, Variant::AnnotatedImports]
         .into_iter()
         .find(|x| variant_name(*x) == vname)
         .unwrap_or(Variant::Base);
